@@ -7,3 +7,6 @@
 typedef struct { sv_t source, target, event, guard, action; } Transition;
 static _Bool is_trim(char c) { return c == '-' || c == ' ' || c == '\t'; }
 static _Bool is_ident(char c) { return (c >= 'a' && c <= 'z') || (c >= 'A' && c <= 'Z') || (c >= '0' && c <= '9') || c == '_'; }
+sv_t cleanup_token(sv_t str);
+Transition parse_guards(sv_t part);
+Transition parse_row_right(sv_t part);
